@@ -172,7 +172,7 @@ mut("c13-lru-peek-negative-control", ["C13", "C14"], CORE,
 mut("c10-receive-maximum-survives", ["C10", "C12"], CORE,
     "        self.publish_send_max = None;\n        self.publish_recv_max = None;\n        self.publish_send_count = 0;",
     "        self.publish_recv_max = None;\n        self.publish_send_count = 0;",
-    note="the peer's Receive Maximum of the previous connection stays in force when the next CONNACK / CONNECT announces none")
+    note="(equivalent since the repair 'notify_closed() forgets the peer's Receive Maximum': the value is already gone when the next CONNECT runs) NEGATIVE CONTROL - no check may alarm")
 mut("c10-server-keep-alive-survives", ["C10", "C15"], CORE,
     "        self.pingreq_keep_alive_ms = 0;\n        self.pingreq_server_keep_alive_ms = None;",
     "        self.pingreq_keep_alive_ms = 0;",
